@@ -8,15 +8,28 @@ package main
 // compiled as its own template (`= path` or `!= path`) on one engine and rendered with the value
 // as page data. Observation per path: outcome class and output bytes (hex). Error text is
 // reported for diagnostics only and never compared.
+//
+// A case may also be a history `{"seq": [{data, paths}, ...]}`: the values are rendered in this order
+// in ONE process on ONE engine (all templates loaded up front), so that whatever the conversion of one
+// value leaves behind (in the process, in the engine) is there when the next one is converted. The
+// values of a history are typically look-alikes: distinct types of one name (c11_twins.go), or
+// reflect.StructOf types over the same field names in another order / with other types.
+// Every case is run in a process of its own (the runner re-executes the binary per case), so what a
+// case observes is a function of the case alone and a replay reproduces it.
 
 import (
+	"bytes"
 	"context"
 	"encoding/json"
 	"fmt"
 	"os"
+	"os/exec"
 	"reflect"
+	"runtime"
 	"strconv"
 	"strings"
+	"sync"
+	"unsafe"
 
 	"flamingo.me/flamingo/v3/framework/flamingo"
 	"flamingo.me/pugtemplate/pugjs"
@@ -38,9 +51,15 @@ type c11Path struct {
 	Raw   bool      `json:"raw"` // != path (unescaped) instead of = path
 }
 
-type c11Case struct {
+type c11Value struct {
 	Data  c11Node   `json:"data"`
 	Paths []c11Path `json:"paths"`
+}
+
+// c11Case is one value (data, paths) or a history of values (seq).
+type c11Case struct {
+	c11Value
+	Seq []c11Value `json:"seq,omitempty"`
 }
 
 type c11Obs struct {
@@ -49,6 +68,13 @@ type c11Obs struct {
 	Src   []string       `json:"src"` // JS source of each path (diagnostic)
 	Code  []string       `json:"code,omitempty"`
 	Paths []renderResult `json:"paths"`
+	Type  string         `json:"type,omitempty"` // reflect.Type.String() of the value (diagnostic)
+}
+
+// c11CaseObs: the observation of a single value is the c11Obs itself; of a history, one c11Obs per value.
+type c11CaseObs struct {
+	c11Obs
+	Vals []c11Obs `json:"vals,omitempty"`
 }
 
 // ---------------------------------------------------------------- the fixed family of types
@@ -148,6 +174,9 @@ func c11Type(raw json.RawMessage) (reflect.Type, error) {
 	if err := json.Unmarshal(raw, &m); err != nil {
 		return nil, err
 	}
+	if e, ok := m["twin"]; ok {
+		return c11TwinType(e, m)
+	}
 	if e, ok := m["slice"]; ok {
 		t, err := c11Type(e)
 		if err != nil {
@@ -189,6 +218,77 @@ func c11Type(raw json.RawMessage) (reflect.Type, error) {
 		return reflect.StructOf(fields), nil
 	}
 	return nil, fmt.Errorf("bad type descriptor %s", raw)
+}
+
+// c11TwinType resolves {"twin": name, "var": scope} in c11Twins. When the descriptor also carries the
+// generator's description of the type ("struct": [[field, type]...] or "under": type), the description is
+// compared with what reflect reports: a mismatch is a harness error.
+func c11TwinType(nameRaw json.RawMessage, m map[string]json.RawMessage) (reflect.Type, error) {
+	var name, scope string
+	if err := json.Unmarshal(nameRaw, &name); err != nil {
+		return nil, err
+	}
+	if err := json.Unmarshal(m["var"], &scope); err != nil {
+		return nil, err
+	}
+	t, ok := c11Twins[scope][name]
+	if !ok {
+		return nil, fmt.Errorf("unknown look-alike type %s/%s", scope, name)
+	}
+	if t.Name() != name {
+		return nil, fmt.Errorf("look-alike %s/%s is called %s", scope, name, t.Name())
+	}
+	if e, ok := m["struct"]; ok {
+		var fs [][2]json.RawMessage
+		if err := json.Unmarshal(e, &fs); err != nil {
+			return nil, err
+		}
+		if t.Kind() != reflect.Struct || t.NumField() != len(fs) {
+			return nil, fmt.Errorf("look-alike %s/%s: described with %d fields, is %s", scope, name, len(fs), t)
+		}
+		for i, f := range fs {
+			var fn string
+			if err := json.Unmarshal(f[0], &fn); err != nil {
+				return nil, err
+			}
+			ft, err := c11Type(f[1])
+			if err != nil {
+				return nil, err
+			}
+			if t.Field(i).Name != fn || t.Field(i).Type != ft {
+				return nil, fmt.Errorf("look-alike %s/%s field %d: described as %s %s, is %s %s", scope, name, i, fn, ft, t.Field(i).Name, t.Field(i).Type)
+			}
+		}
+	}
+	if e, ok := m["under"]; ok {
+		u, err := c11Type(e)
+		if err != nil {
+			return nil, err
+		}
+		if u.Kind() != t.Kind() || !u.ConvertibleTo(t) || !t.ConvertibleTo(u) {
+			return nil, fmt.Errorf("look-alike %s/%s: described as %s, is %s (%s)", scope, name, u, t, t.Kind())
+		}
+		switch t.Kind() {
+		case reflect.Slice, reflect.Map:
+			if t.Elem() != u.Elem() {
+				return nil, fmt.Errorf("look-alike %s/%s: element %s described, is %s", scope, name, u.Elem(), t.Elem())
+			}
+		}
+	}
+	return t, nil
+}
+
+// c11SetField sets field i of the addressable struct value s, exported or not.
+func c11SetField(s reflect.Value, i int, v reflect.Value) error {
+	f := s.Field(i)
+	if !v.Type().AssignableTo(f.Type()) {
+		return fmt.Errorf("%s not assignable to %s", v.Type(), f.Type())
+	}
+	if !f.CanSet() {
+		f = reflect.NewAt(f.Type(), unsafe.Pointer(f.UnsafeAddr())).Elem()
+	}
+	f.Set(v)
+	return nil
 }
 
 // c11Build returns an addressable-free reflect.Value of exactly the node's type.
@@ -334,7 +434,11 @@ func c11Build(n c11Node) (reflect.Value, error) {
 		if isNull {
 			return res, nil
 		}
-		if t.Name() == "" { // reflect.StructOf: fields by position
+		family := false
+		for _, ft := range c11Named {
+			family = family || ft == t
+		}
+		if !family { // reflect.StructOf and look-alike types: fields by position
 			var l []c11Node
 			if err := json.Unmarshal(n.V, &l); err != nil {
 				return res, err
@@ -347,7 +451,7 @@ func c11Build(n c11Node) (reflect.Value, error) {
 				if err != nil {
 					return res, err
 				}
-				if err := c11Set(res.Field(i), v); err != nil {
+				if err := c11SetField(res, i, v); err != nil {
 					return res, err
 				}
 			}
@@ -445,7 +549,8 @@ func c11AST(src string, raw bool) string {
 
 var c11LoggerSet bool
 
-func runC11(c c11Case) (obs c11Obs, err error) {
+// runC11 renders the values of a case in order, in this process, on one engine.
+func runC11(c c11Case) (res c11CaseObs, err error) {
 	if !c11LoggerSet {
 		// production wiring: a logger is present and debug mode is off (pugjs.NewEngine records both)
 		pugjs.NewEngine(&struct {
@@ -454,52 +559,114 @@ func runC11(c c11Case) (obs c11Obs, err error) {
 		}{Debug: false, Logger: flamingo.NullLogger{}})
 		c11LoggerSet = true
 	}
-	v, err := c11Build(c.Data)
-	if err != nil {
-		return obs, err
+	vals := c.Seq
+	single := len(vals) == 0
+	if single {
+		vals = []c11Value{c.c11Value}
 	}
-	var data interface{}
-	if v.IsValid() && !(v.Kind() == reflect.Interface && v.IsNil()) {
-		data = v.Interface()
-	}
+	datas := make([]interface{}, len(vals))
+	out := make([]c11Obs, len(vals))
 	dir, err := os.MkdirTemp("", "pv11")
 	if err != nil {
-		return obs, err
+		return res, err
 	}
 	defer os.RemoveAll(dir)
 	files := map[string]string{}
-	for i, p := range c.Paths {
-		src, err := c11Source(p)
+	for k, val := range vals {
+		v, err := c11Build(val.Data)
 		if err != nil {
-			return obs, err
+			return res, fmt.Errorf("value %d: %w", k, err)
 		}
-		obs.Src = append(obs.Src, src)
-		files[fmt.Sprintf("template/page/p%d.ast.json", i)] = c11AST(src, p.Raw)
+		if v.IsValid() && !(v.Kind() == reflect.Interface && v.IsNil()) {
+			datas[k] = v.Interface()
+			out[k].Type = reflect.TypeOf(datas[k]).String()
+		}
+		for i, p := range val.Paths {
+			src, err := c11Source(p)
+			if err != nil {
+				return res, err
+			}
+			out[k].Src = append(out[k].Src, src)
+			files[fmt.Sprintf("template/page/v%dp%d.ast.json", k, i)] = c11AST(src, p.Raw)
+		}
 	}
 	if err := writeTree(dir, files); err != nil {
-		return obs, err
+		return res, err
 	}
 	os.MkdirAll(dir+"/template/page", 0o755)
 	e := newEngine(dir, false, 0, nil)
-	obs.Load, obs.Msg = safeLoad(e, "")
-	obs.Paths = make([]renderResult, len(c.Paths))
-	if obs.Load != clsOK {
-		for i := range obs.Paths {
-			obs.Paths[i] = renderResult{Class: obs.Load}
-		}
-		return obs, nil
-	}
+	load, msg := safeLoad(e, "")
 	ctx := context.Background()
-	for i := range c.Paths {
-		name := fmt.Sprintf("p%d", i)
-		obs.Code = append(obs.Code, e.TemplateCode[name])
-		r := safeRender(e, ctx, name, data)
-		if len(r.Err) > 300 {
-			r.Err = r.Err[:300]
+	for k, val := range vals {
+		out[k].Load, out[k].Msg = load, msg
+		out[k].Paths = make([]renderResult, len(val.Paths))
+		for i := range val.Paths {
+			if load != clsOK {
+				out[k].Paths[i] = renderResult{Class: load}
+				continue
+			}
+			name := fmt.Sprintf("v%dp%d", k, i)
+			out[k].Code = append(out[k].Code, e.TemplateCode[name])
+			r := safeRender(e, ctx, name, datas[k])
+			if len(r.Err) > 300 {
+				r.Err = r.Err[:300]
+			}
+			out[k].Paths[i] = r
 		}
-		obs.Paths[i] = r
 	}
-	return obs, nil
+	if single {
+		res.c11Obs = out[0]
+	} else {
+		res.Vals = out
+	}
+	return res, nil
+}
+
+// c11Crashed is the observation of a case whose process died (a crash that recover cannot stop).
+func c11Crashed(c c11Case, msg string) (res c11CaseObs) {
+	mk := func(v c11Value) c11Obs {
+		o := c11Obs{Load: "crash", Msg: msg, Paths: make([]renderResult, len(v.Paths))}
+		for i := range o.Paths {
+			o.Paths[i] = renderResult{Class: "crash"}
+		}
+		return o
+	}
+	if len(c.Seq) == 0 {
+		res.c11Obs = mk(c.c11Value)
+		return res
+	}
+	for _, v := range c.Seq {
+		res.Vals = append(res.Vals, mk(v))
+	}
+	return res
+}
+
+// c11Isolated runs one case in a fresh process of this binary.
+func c11Isolated(self string, c c11Case) (c11CaseObs, error) {
+	in, err := json.Marshal([]c11Case{c})
+	if err != nil {
+		return c11CaseObs{}, err
+	}
+	cmd := exec.Command(self, "C11")
+	cmd.Env = append(os.Environ(), "PV_C11_CHILD=1")
+	cmd.Stdin = bytes.NewReader(in)
+	var stdout, stderr bytes.Buffer
+	cmd.Stdout, cmd.Stderr = &stdout, &stderr
+	if err := cmd.Run(); err != nil {
+		msg := stderr.String()
+		if strings.Contains(msg, "harness error:") || strings.Contains(msg, "bad input:") {
+			return c11CaseObs{}, fmt.Errorf("%s", strings.TrimSpace(msg))
+		}
+		if len(msg) > 300 {
+			msg = msg[:300]
+		}
+		return c11Crashed(c, err.Error()+": "+msg), nil
+	}
+	var out []c11CaseObs
+	if err := json.Unmarshal(stdout.Bytes(), &out); err != nil || len(out) != 1 {
+		return c11CaseObs{}, fmt.Errorf("child output unreadable: %v", err)
+	}
+	return out[0], nil
 }
 
 func init() {
@@ -508,13 +675,59 @@ func init() {
 		if err := json.Unmarshal(in, &cases); err != nil {
 			return nil, err
 		}
-		out := make([]c11Obs, len(cases))
-		for i, c := range cases {
-			o, err := runC11(c)
-			if err != nil {
-				return nil, fmt.Errorf("case %d: %w", i, err)
+		out := make([]c11CaseObs, len(cases))
+		if os.Getenv("PV_C11_CHILD") != "" {
+			for i, c := range cases {
+				o, err := runC11(c)
+				if err != nil {
+					return nil, fmt.Errorf("case %d: %w", i, err)
+				}
+				out[i] = o
 			}
-			out[i] = o
+			return out, nil
+		}
+		// one process per case: no case sees what another one left behind
+		self, err := os.Executable()
+		if err != nil {
+			return nil, err
+		}
+		workers := runtime.NumCPU()
+		if workers > 12 {
+			workers = 12
+		}
+		var wg sync.WaitGroup
+		var mu sync.Mutex
+		var firstErr error
+		next := 0
+		for w := 0; w < workers; w++ {
+			wg.Add(1)
+			go func() {
+				defer wg.Done()
+				for {
+					mu.Lock()
+					i := next
+					next++
+					stop := firstErr != nil
+					mu.Unlock()
+					if stop || i >= len(cases) {
+						return
+					}
+					o, err := c11Isolated(self, cases[i])
+					if err != nil {
+						mu.Lock()
+						if firstErr == nil {
+							firstErr = fmt.Errorf("case %d: %w", i, err)
+						}
+						mu.Unlock()
+						return
+					}
+					out[i] = o
+				}
+			}()
+		}
+		wg.Wait()
+		if firstErr != nil {
+			return nil, firstErr
 		}
 		return out, nil
 	}
